@@ -394,7 +394,7 @@ PLAN["C12"] = {
 PLAN["C13"] = {
     "level": "model_checking",
     "explanation": "MappingInfo::aggregate (through procfs-core's real parser) checked on every memory map of up to 3 lines over a 64-element per-line "
-                   "domain and every vDSO choice (1 060 992 maps) against five reference predicates derived from the statement",
+                   "domain and every vDSO choice (1 060 992 maps) against ten reference predicates derived from the statement and from what the other contracts assume of a derived mapping (order, ownership, hull, merge rules, vDSO name, path without the deleted marker, kernel-reported range, permission union, offset, must-merge)",
     "verus": [],
     "kani": [{"tiers": Q, "jobs": 2, "timeout": 1500, "harnesses": {
         "vk_aggregate_one_line_path": H("B", "MappingInfo::aggregate", "1 line, symbolic addresses/permissions/offset/vDSO address, name /a")}}],
@@ -413,7 +413,7 @@ PLAN["C14"] = {
     "verus": [],
     "kani": [],
     "native": [{"stem": "module_reader", "filter": "", "tiers": Q, "tests": {
-        "c14_well_formed_image_is_identified": H("B'", "BuildId/SoName::read_from_module", "3 hand-built ELF64 images"),
+        "c14_well_formed_image_is_identified": H("B'", "BuildId/SoName::read_from_module", "8 hand-built ELF64 images: with/without build-id note, data section before .text (allocated; executable but not allocated), ABI-tag note first, program headers only, sections only"),
         "bprime_single_field_corruptions_never_panic": H("B'", "BuildId/SoName::read_from_module", "every field x (14 extremes + every other field's value and its neighbours), and all field pairs x 25 value pairs, with and without a note: 608 688 parses")}}],
     "trusted": ["agreement with an independent parser on installed files and memory-vs-file agreement need a second implementation and a live target: not decided",
                 "goblin's parsing beyond the paths these images exercise"],
@@ -430,7 +430,7 @@ PLAN["C08"] = {
     "twins": {"is_contained_in": ["kani:vk_is_contained_in_n1", "kani:vk_is_contained_in_n2"], "is_interesting": ["kani:vk_is_interesting_rule"],
               "contains_address": ["kani:vk_contains_address_rule"]},
     "native": [{"stem": "module_reader", "filter": "c14_well", "tiers": Q, "tests": {
-        "c14_well_formed_image_is_identified": H("B'", "BuildId/SoName::read_from_module", "3 hand-built ELF64 images")}},
+        "c14_well_formed_image_is_identified": H("B'", "BuildId/SoName::read_from_module", "8 hand-built ELF64 images: with/without build-id note, data section before .text (allocated; executable but not allocated), ABI-tag note first, program headers only, sections only")}},
                {"stem": "maps_reader", "filter": "bprime_aggregate_up_to_2", "tiers": Q, "tests": {
         "bprime_aggregate_up_to_2_lines": H("B'", "MappingInfo::aggregate (module naming: the mapped path without the ' (deleted)' marker; extents)", "every map of <= 2 lines over the 64-element per-line domain x vDSO choices (12 416 maps)")}},
                {"stem": "maps_reader", "filter": "bprime_effective", "tiers": Q, "tests": {
@@ -570,7 +570,7 @@ LEVEL_TEXT = {
     "C11": "bounded check of suspend_threads, complete control-flow proof (relative to stubs) for the 11 best-effort steps of generate_dump (thorough); init and JSON well-formedness are not covered",
     "C12": "bounded: exhaustive native enumeration of 13 872 boundary inputs (quick) and Kani over all 8/12-byte stacks with a symbolic mapping (thorough); not a proof for all stack lengths",
     "C13": "bounded: exhaustive over all maps of up to 3 lines of a 64-element per-line domain; not a proof for all map lengths",
-    "C14": "bounded: four hand-built images and 608 688 parses of corrupted variants; agreement with an independent parser on installed files is not decided",
+    "C14": "bounded: eight hand-built images and 608 688 parses of corrupted variants; agreement with an independent parser on installed files is not decided",
     "C15": "bounded: every named/unnamed pattern of 2 threads with symbolic ids and concrete names (Kani); every list of <= 3 threads over 8 name shapes incl. non-BMP names (native)",
     "C16": "unbounded proof for every Buffer/MemoryWriter/MemoryArrayWriter function Verus can read (all inputs, all buffer states); complete Kani proofs of the per-type size facts; bounded Kani checks (stated bounds) of alloc_from_array/alloc_from_iter/write_string_to_location",
     "C17": "bounded: destinations of 3, 8, 11, 17 bytes, every source alignment and every readable interval for the ptrace strategy (Kani); all three strategies on a live child around a mapping end, 6144 reads (native); strategy selection complete (Kani)",
